@@ -1,29 +1,709 @@
+// Harness for C13: hands keys, paste boundaries and mouse events to the real
+// embedded terminal (widgets/term, Model.Update on a PTY stand-in, modes set
+// through the emulator's own DECSET/DECRST/keypad dispatch), records the bytes
+// written towards the child, feeds them to a real Vaxis (fake console) and
+// records the events that Vaxis posts.  Writes Coq case files for
+// model/TermKeys.v and model/TermMouse.v.
 package main
 
 import (
 	"fmt"
+	"os"
+	"sort"
+	"strings"
+	"time"
+	"unicode"
 
 	vaxis "git.sr.ht/~rockorager/vaxis"
 	"git.sr.ht/~rockorager/vaxis/widgets/term"
+	"github.com/rivo/uniseg"
+	"verif/harness/hx"
 )
 
-func run(ops []term.VerifC13ModeOp, ev vaxis.Event) []byte {
+// ---------- the unicode oracle, from Go's own tables (format of model/Keys.v) ----------
+
+func foldRep(r rune) rune {
+	if r < 0 || r > unicode.MaxRune {
+		return r
+	}
+	min := r
+	for x := unicode.SimpleFold(r); x != r; x = unicode.SimpleFold(x) {
+		if x < min {
+			min = x
+		}
+	}
+	return min
+}
+
+func infoTerm(r rune) string {
+	f := 0
+	if unicode.IsUpper(r) {
+		f |= 1
+	}
+	if unicode.IsLower(r) {
+		f |= 2
+	}
+	if unicode.IsLetter(r) {
+		f |= 4
+	}
+	if unicode.IsGraphic(r) {
+		f |= 8
+	}
+	if unicode.IsPrint(r) {
+		f |= 16
+	}
+	return hx.Tuple(hx.Z(int64(f)), hx.Z(int64(unicode.ToUpper(r))), hx.Z(int64(unicode.ToLower(r))), hx.Z(int64(foldRep(r))))
+}
+
+func utab(rs []rune) string {
+	set := map[rune]bool{}
+	var add func(r rune, depth int)
+	add = func(r rune, depth int) {
+		if r >= 0 && r < 128 || r < 0 || r > unicode.MaxRune || set[r] {
+			return
+		}
+		set[r] = true
+		if depth > 0 {
+			add(unicode.ToUpper(r), depth-1)
+			add(unicode.ToLower(r), depth-1)
+		}
+	}
+	for _, r := range rs {
+		add(r, 2)
+	}
+	keys := make([]rune, 0, len(set))
+	for r := range set {
+		keys = append(keys, r)
+	}
+	sort.Slice(keys, func(i, j int) bool { return keys[i] < keys[j] })
+	items := make([]string, len(keys))
+	for i, r := range keys {
+		items[i] = hx.Tuple(hx.Z(int64(r)), infoTerm(r))
+	}
+	return hx.List(items)
+}
+
+// ---------- Coq printers ----------
+
+func keyTerm(k vaxis.Key) string {
+	return fmt.Sprintf("(mkKey %s %s %s %s %s %s)", hx.Runes(k.Text), hx.Z(int64(k.Keycode)), hx.Z(int64(k.ShiftedCode)),
+		hx.Z(int64(k.BaseLayoutCode)), hx.Z(int64(k.Modifiers)), hx.Z(int64(k.EventType)))
+}
+
+func keyJSON(k vaxis.Key) map[string]interface{} {
+	return map[string]interface{}{"text": k.Text, "keycode": k.Keycode, "shifted": k.ShiftedCode, "base": k.BaseLayoutCode,
+		"mods": int(k.Modifiers), "event": int(k.EventType)}
+}
+
+func mouseTerm(m vaxis.Mouse) string {
+	return fmt.Sprintf("(mkMouse %s %s %s %s %s)", hx.Z(int64(m.Button)), hx.Z(int64(m.Row)), hx.Z(int64(m.Col)),
+		hx.Z(int64(m.EventType)), hx.Z(int64(m.Modifiers)))
+}
+
+func mouseJSON(m vaxis.Mouse) map[string]interface{} {
+	return map[string]interface{}{"button": int(m.Button), "row": m.Row, "col": m.Col, "type": int(m.EventType), "mods": int(m.Modifiers)}
+}
+
+func opsTerm(ops []term.VerifC13ModeOp) string {
+	items := make([]string, len(ops))
+	for i, op := range ops {
+		switch op.Kind {
+		case 'h':
+			items[i] = "OpSet " + hx.Z(int64(op.N))
+		case 'l':
+			items[i] = "OpReset " + hx.Z(int64(op.N))
+		case '=':
+			items[i] = "OpKpam"
+		default:
+			items[i] = "OpKpnm"
+		}
+	}
+	return hx.List(items)
+}
+
+func opsJSON(ops []term.VerifC13ModeOp) []string {
+	out := make([]string, len(ops))
+	for i, op := range ops {
+		switch op.Kind {
+		case 'h', 'l':
+			out[i] = fmt.Sprintf("CSI ? %d %c", op.N, op.Kind)
+		default:
+			out[i] = fmt.Sprintf("ESC %c", op.Kind)
+		}
+	}
+	return out
+}
+
+func modesTerm(m term.VerifC13Modes) string {
+	return fmt.Sprintf("(mkModes %s %s %s %s %s %s %s %s %s)", hx.Bool(m.Deckpam), hx.Bool(m.Decckm), hx.Bool(m.Paste),
+		hx.Bool(m.MouseButtons), hx.Bool(m.MouseDrag), hx.Bool(m.MouseMotion), hx.Bool(m.MouseSGR), hx.Bool(m.AltScroll), hx.Bool(m.Smcup))
+}
+
+func eventsTerm(evs []vaxis.Event) string {
+	items := make([]string, len(evs))
+	for i, ev := range evs {
+		switch ev := ev.(type) {
+		case vaxis.Key:
+			items[i] = "HKey " + keyTerm(ev)
+		case vaxis.Mouse:
+			items[i] = "HMouse " + mouseTerm(ev)
+		case vaxis.PasteStartEvent:
+			items[i] = "HPasteStart"
+		case vaxis.PasteEndEvent:
+			items[i] = "HPasteEnd"
+		case vaxis.FocusIn:
+			items[i] = "HFocusIn"
+		case vaxis.FocusOut:
+			items[i] = "HFocusOut"
+		default:
+			items[i] = "HInternal"
+		}
+	}
+	return hx.List(items)
+}
+
+func eventsJSON(evs []vaxis.Event) []interface{} {
+	out := make([]interface{}, len(evs))
+	for i, ev := range evs {
+		switch ev := ev.(type) {
+		case vaxis.Key:
+			out[i] = map[string]interface{}{"key": keyJSON(ev)}
+		case vaxis.Mouse:
+			out[i] = map[string]interface{}{"mouse": mouseJSON(ev)}
+		default:
+			out[i] = fmt.Sprintf("%T", ev)
+		}
+	}
+	return out
+}
+
+// ---------- the host side: a real Vaxis on a fake console ----------
+
+type host struct {
+	fc     *hx.FakeConsole
+	vx     *vaxis.Vaxis
+	direct []hx.DirectViolation
+	reads  int
+	pauses int
+}
+
+const sentinel = "\x1b[I"
+
+func newHost() *host {
+	os.Unsetenv("COLORTERM")
+	fc := hx.NewFakeConsole(hx.ProfileFromMask(0, 24, 80))
+	vx, err := vaxis.New(vaxis.Options{WithConsole: fc, NoSignals: true})
+	if err != nil {
+		panic(err)
+	}
+	h := &host{fc: fc, vx: vx}
+	// drain whatever start-up posted
+	if _, ok := h.read(nil, false); !ok {
+		panic("the start-up sentinel never arrived")
+	}
+	return h
+}
+
+// read injects the bytes, then (after a pause longer than the Escape timer when
+// pause is set) a focus-in report, and returns the events posted before it.
+func (h *host) read(b []byte, pause bool) ([]vaxis.Event, bool) {
+	h.reads++
+	if pause {
+		h.pauses++
+		h.fc.Inject(b)
+		time.Sleep(45 * time.Millisecond)
+		h.fc.InjectString(sentinel)
+	} else {
+		h.fc.Inject(append(append([]byte(nil), b...), sentinel...))
+	}
+	var evs []vaxis.Event
+	deadline := time.After(3 * time.Second)
+	for {
+		select {
+		case ev := <-h.vx.Events():
+			if _, ok := ev.(vaxis.FocusIn); ok {
+				return evs, true
+			}
+			evs = append(evs, ev)
+		case <-deadline:
+			return evs, false
+		}
+	}
+}
+
+// ---------- the embedded terminal ----------
+
+func runTerm(ops []term.VerifC13ModeOp, ev vaxis.Event) (term.VerifC13Modes, []byte) {
 	t, err := term.VerifC13New()
 	if err != nil {
 		panic(err)
 	}
 	t.Apply(ops)
-	return t.Update(ev)
+	md := t.Modes()
+	return md, t.Update(ev)
+}
+
+type harness struct {
+	cfg  *hx.Config
+	host *host
+	keys *hx.Stream
+	mice *hx.Stream
+}
+
+func (h *harness) pick(n int) int { return h.cfg.Rand.Intn(n) }
+
+// ops that bring a fresh emulator to the given keypad / cursor-key modes, with
+// some irrelevant or redundant control functions mixed in
+func (h *harness) keyOps(kp, ck bool) []term.VerifC13ModeOp {
+	var ops []term.VerifC13ModeOp
+	switch h.pick(4) {
+	case 0:
+		ops = append(ops, term.VerifC13ModeOp{Kind: 'h', N: 25})
+	case 1:
+		ops = append(ops, term.VerifC13ModeOp{Kind: 'h', N: 1}, term.VerifC13ModeOp{Kind: '='})
+	case 2:
+		ops = append(ops, term.VerifC13ModeOp{Kind: 'l', N: 1}, term.VerifC13ModeOp{Kind: '>'})
+	}
+	if kp {
+		ops = append(ops, term.VerifC13ModeOp{Kind: '='})
+	} else if len(ops) > 0 {
+		ops = append(ops, term.VerifC13ModeOp{Kind: '>'})
+	}
+	if ck {
+		ops = append(ops, term.VerifC13ModeOp{Kind: 'h', N: 1})
+	} else if len(ops) > 0 {
+		ops = append(ops, term.VerifC13ModeOp{Kind: 'l', N: 1})
+	}
+	if h.pick(5) == 0 {
+		ops = append(ops, term.VerifC13ModeOp{Kind: 'h', N: []int{2004, 1000, 1006, 7, 12}[h.pick(5)]})
+	}
+	return ops
+}
+
+func clusters(s string) []string {
+	var out []string
+	g := uniseg.NewGraphemes(s)
+	for g.Next() {
+		out = append(out, g.Str())
+	}
+	return out
+}
+
+func isText(b []byte) bool {
+	for _, c := range b {
+		if c < 0x20 {
+			return false
+		}
+	}
+	return len(b) > 0
+}
+
+func (h *harness) addKey(k vaxis.Key, kp, ck bool, tags ...string) {
+	ops := h.keyOps(kp, ck)
+	md, out := runTerm(ops, k)
+	if md.Deckpam != kp || md.Decckm != ck {
+		panic("keyOps did not reach the requested modes")
+	}
+	// the hook re-export must agree with the Update path
+	if direct := term.VerifC13EncodeXterm(k, md.Deckpam, md.Decckm); direct != string(out) {
+		h.host.direct = append(h.host.direct, hx.DirectViolation{Class: "update-vs-encode", Case: keyJSON(k),
+			What: fmt.Sprintf("Model.Update wrote %q, encodeXterm returned %q", out, direct)})
+	}
+	pause := len(out) > 0 && out[len(out)-1] == 0x1b
+	evs, ok := h.host.read(out, pause)
+	if !ok {
+		h.host.direct = append(h.host.direct, hx.DirectViolation{Class: "host-hang", Case: keyJSON(k),
+			What: fmt.Sprintf("the host Vaxis did not deliver the sentinel after %q", out)})
+	}
+	var segs []string
+	if isText(out) {
+		for _, c := range clusters(string(out)) {
+			segs = append(segs, hx.Runes(c))
+		}
+	}
+	rs := []rune{k.Keycode, k.ShiftedCode}
+	rs = append(rs, []rune(k.Text)...)
+	rs = append(rs, []rune(string(out))...)
+	for _, ev := range evs {
+		if kk, ok := ev.(vaxis.Key); ok {
+			rs = append(rs, kk.Keycode, kk.ShiftedCode)
+			rs = append(rs, []rune(kk.Text)...)
+		}
+	}
+	termS := hx.Tuple(utab(rs), hx.List(segs), opsTerm(ops), keyTerm(k), hx.Bool(pause), modesTerm(md), hx.Bytes(out),
+		hx.Some(eventsTerm(evs)))
+	js := map[string]interface{}{"ops": opsJSON(ops), "key": keyJSON(k), "deckpam": kp, "decckm": ck,
+		"written": fmt.Sprintf("%q", out), "pause": pause, "events": eventsJSON(evs)}
+	xm := k.Modifiers & (vaxis.ModShift | vaxis.ModAlt | vaxis.ModCtrl)
+	nontrivial := xm != 0 || k.Keycode > unicode.MaxRune || kp || ck
+	h.keys.Add(termS, js, nontrivial, tags...)
+}
+
+func (h *harness) mouseOps(buttons, drag, motion, sgr, alt, smcup bool) []term.VerifC13ModeOp {
+	var ops []term.VerifC13ModeOp
+	set := func(n int) { ops = append(ops, term.VerifC13ModeOp{Kind: 'h', N: n}) }
+	rst := func(n int) { ops = append(ops, term.VerifC13ModeOp{Kind: 'l', N: n}) }
+	if h.pick(6) == 0 {
+		// a mode switched on and off again
+		n := []int{1000, 1002, 1003, 1006, 2004}[h.pick(5)]
+		set(n)
+		rst(n)
+	}
+	if smcup {
+		set(1049)
+		if !alt {
+			rst(1007)
+		}
+	} else if alt {
+		set(1007)
+	}
+	order := h.cfg.Rand.Perm(4)
+	for _, i := range order {
+		switch i {
+		case 0:
+			if buttons {
+				set(1000)
+			}
+		case 1:
+			if drag {
+				set(1002)
+			}
+		case 2:
+			if motion {
+				set(1003)
+			}
+		case 3:
+			if sgr {
+				set(1006)
+			}
+		}
+	}
+	return ops
+}
+
+func (h *harness) addEvent(ops []term.VerifC13ModeOp, ev vaxis.Event, tags ...string) {
+	md, out := runTerm(ops, ev)
+	var evTerm string
+	var evJS interface{}
+	nontrivial := len(out) > 0
+	switch e := ev.(type) {
+	case vaxis.Mouse:
+		evTerm = "(TMouse " + mouseTerm(e) + ")"
+		evJS = map[string]interface{}{"mouse": mouseJSON(e)}
+	case vaxis.PasteStartEvent:
+		evTerm = "TPasteStart"
+		evJS = "PasteStartEvent"
+	case vaxis.PasteEndEvent:
+		evTerm = "TPasteEnd"
+		evJS = "PasteEndEvent"
+	default:
+		evTerm = "TOther"
+		evJS = fmt.Sprintf("%T", ev)
+	}
+	// Re-read through the host unless the bytes are a legacy (X10) mouse report:
+	// CSI M without '<' makes parseMouseEvent index an empty slice (property C03).
+	reread := len(out) > 0 && !strings.HasPrefix(string(out), "\x1b[M")
+	evsTerm := hx.None
+	var evsJS interface{}
+	if reread {
+		evs, ok := h.host.read(out, false)
+		if !ok {
+			h.host.direct = append(h.host.direct, hx.DirectViolation{Class: "host-hang", Case: evJS,
+				What: fmt.Sprintf("the host Vaxis did not deliver the sentinel after %q", out)})
+		}
+		if strings.Contains(string(out), "\x1b[200~") {
+			// leave paste mode again
+			h.host.read([]byte("\x1b[201~"), false)
+		}
+		evsTerm = hx.Some(eventsTerm(evs))
+		evsJS = eventsJSON(evs)
+	}
+	termS := hx.Tuple(opsTerm(ops), evTerm, modesTerm(md), hx.Bytes(out), evsTerm)
+	js := map[string]interface{}{"ops": opsJSON(ops), "event": evJS, "written": fmt.Sprintf("%q", out), "events": evsJS}
+	h.mice.Add(termS, js, nontrivial, tags...)
+}
+
+// ---------- generators ----------
+
+var specialKeys = []rune{vaxis.KeyUp, vaxis.KeyDown, vaxis.KeyRight, vaxis.KeyLeft, vaxis.KeyEnd, vaxis.KeyHome,
+	vaxis.KeyInsert, vaxis.KeyDelete, vaxis.KeyPgUp, vaxis.KeyPgDown,
+	vaxis.KeyF01, vaxis.KeyF02, vaxis.KeyF03, vaxis.KeyF04, vaxis.KeyF05, vaxis.KeyF06,
+	vaxis.KeyF07, vaxis.KeyF08, vaxis.KeyF09, vaxis.KeyF10, vaxis.KeyF11, vaxis.KeyF12}
+
+// US layout: what Shift makes of a non-letter
+var shifted = map[rune]rune{'1': '!', '2': '@', '3': '#', '4': '$', '5': '%', '6': '^', '7': '&', '8': '*', '9': '(', '0': ')',
+	'-': '_', '=': '+', '[': '{', ']': '}', '\\': '|', ';': ':', '\'': '"', ',': '<', '.': '>', '/': '?', '`': '~'}
+
+// what a host Vaxis reports for the key `c` with the modifiers m (kitty-style:
+// lower-case key code, shifted code and text when Shift produces text)
+func hostKey(c rune, m vaxis.ModifierMask) vaxis.Key {
+	k := vaxis.Key{Keycode: c, Modifiers: m}
+	if c < 0x20 || c == 0x7f || c > unicode.MaxRune {
+		return k
+	}
+	if m&(vaxis.ModCtrl|vaxis.ModAlt) == 0 {
+		k.Text = string(c)
+	}
+	if m&vaxis.ModShift != 0 {
+		s := unicode.ToUpper(c)
+		if x, ok := shifted[c]; ok {
+			s = x
+		}
+		if s != c {
+			k.ShiftedCode = s
+		}
+		if m&(vaxis.ModCtrl|vaxis.ModAlt) == 0 {
+			k.Text = string(s)
+		}
+	}
+	return k
+}
+
+func (h *harness) genKeys() {
+	thorough := h.cfg.Thorough()
+	bools := []bool{false, true}
+	// 1. every key of xtermKeymap x 8 modifier sets x 4 mode sets, exhaustively
+	for _, c := range specialKeys {
+		for m := 0; m < 8; m++ {
+			for _, kp := range bools {
+				for _, ck := range bools {
+					h.addKey(vaxis.Key{Keycode: c, Modifiers: vaxis.ModifierMask(m)}, kp, ck, "special")
+				}
+			}
+		}
+	}
+	// ... with lock bits, other modifier bits, stray text and event types
+	n := 150
+	if thorough {
+		n = 3000
+	}
+	for i := 0; i < n; i++ {
+		k := vaxis.Key{Keycode: specialKeys[h.pick(len(specialKeys))], Modifiers: vaxis.ModifierMask(h.pick(8))}
+		switch h.pick(4) {
+		case 0:
+			k.Modifiers |= vaxis.ModifierMask([]int{64, 128, 192}[h.pick(3)])
+		case 1:
+			k.Modifiers |= vaxis.ModifierMask(h.pick(32) << 3)
+		case 2:
+			k.Text = "x"
+			k.EventType = vaxis.EventType(h.pick(3))
+		}
+		h.addKey(k, h.pick(2) == 0, h.pick(2) == 0, "special-extra")
+	}
+	// 2. every other named key (F13.., keypad, media, modifier keys): unmodified and one modifier set
+	for c := vaxis.KeyUp - 1; c <= vaxis.KeyKeyPadBegin+1; c++ {
+		skip := false
+		for _, s := range specialKeys {
+			if s == c {
+				skip = true
+			}
+		}
+		if skip {
+			continue
+		}
+		h.addKey(vaxis.Key{Keycode: c}, h.pick(2) == 0, h.pick(2) == 0, "named")
+		h.addKey(vaxis.Key{Keycode: c, Modifiers: vaxis.ModifierMask(1 + h.pick(7))}, h.pick(2) == 0, h.pick(2) == 0, "named")
+		if thorough {
+			for m := 0; m < 8; m++ {
+				h.addKey(vaxis.Key{Keycode: c, Modifiers: vaxis.ModifierMask(m)}, h.pick(2) == 0, h.pick(2) == 0, "named")
+			}
+		}
+	}
+	// keypad keys as kitty reports them (with text)
+	for i, c := range []rune{vaxis.KeyKeyPad0, vaxis.KeyKeyPad5, vaxis.KeyKeyPad9} {
+		for _, kp := range bools {
+			h.addKey(vaxis.Key{Keycode: c, Text: string(rune('0' + []int{0, 5, 9}[i]))}, kp, false, "keypad")
+		}
+	}
+	// 3. printable ASCII x 8 modifier sets, exhaustively; Tab, Enter, Esc, Backspace likewise
+	for c := rune(32); c < 127; c++ {
+		for m := 0; m < 8; m++ {
+			h.addKey(hostKey(c, vaxis.ModifierMask(m)), h.pick(4) == 0, h.pick(4) == 0, "ascii")
+		}
+	}
+	for _, c := range []rune{vaxis.KeyTab, vaxis.KeyEnter, vaxis.KeyEsc, vaxis.KeyBackspace, 0x08, 0x00} {
+		for m := 0; m < 8; m++ {
+			h.addKey(vaxis.Key{Keycode: c, Modifiers: vaxis.ModifierMask(m)}, h.pick(4) == 0, h.pick(4) == 0, "c0key")
+		}
+	}
+	// upper-case key codes and lock bits on printable keys
+	for c := rune('A'); c <= 'Z'; c += 5 {
+		h.addKey(vaxis.Key{Keycode: c, Text: string(c)}, false, false, "ascii-upper")
+		h.addKey(vaxis.Key{Keycode: unicode.ToLower(c), Text: string(c), Modifiers: vaxis.ModCapsLock}, false, false, "ascii-caps")
+		h.addKey(vaxis.Key{Keycode: unicode.ToLower(c), ShiftedCode: c, Text: string(c), Modifiers: vaxis.ModShift | vaxis.ModNumLock}, false, false, "ascii-lock")
+	}
+	// 4. other scripts, sampled
+	scripts := [][2]rune{{0xa1, 0xff}, {0x100, 0x17f}, {0x391, 0x3c9}, {0x410, 0x44f}, {0x5d0, 0x5ea}, {0x3041, 0x3096},
+		{0x4e00, 0x4e80}, {0x10400, 0x1044f}, {0x1f600, 0x1f64f}, {0x80, 0x9f}, {0xd7f0, 0xe010}, {0xfff0, 0x10010}, {0x10fff0, 0x10ffff}}
+	n = 40
+	if thorough {
+		n = 600
+	}
+	for _, sc := range scripts {
+		for i := 0; i < n; i++ {
+			c := sc[0] + rune(h.pick(int(sc[1]-sc[0])+1))
+			if c >= 0xd800 && c < 0xe000 {
+				// a surrogate key code cannot come from valid input; keep a few as raw key codes without text
+				h.addKey(vaxis.Key{Keycode: c, Modifiers: vaxis.ModifierMask(h.pick(8))}, false, false, "surrogate")
+				continue
+			}
+			m := vaxis.ModifierMask([]int{0, 0, 1, 1, 2, 4, 3, 5, 6, 7}[h.pick(10)])
+			h.addKey(hostKey(unicode.ToLower(c), m), h.pick(4) == 0, h.pick(4) == 0, "script")
+		}
+	}
+	// 5. texts of several code points: one cluster, several clusters
+	for _, tx := range []string{"é", "\U0001F1E9\U0001F1EA", "ab", "क्ष", "äb", "\U0001F468‍\U0001F469‍\U0001F467", "ß", "ẞ"} {
+		r := []rune(tx)[0]
+		h.addKey(vaxis.Key{Keycode: r, Text: tx}, false, false, "multi")
+		h.addKey(vaxis.Key{Keycode: unicode.ToLower(r), Text: tx, Modifiers: vaxis.ModShift}, false, false, "multi")
+		h.addKey(vaxis.Key{Keycode: r, Text: tx, Modifiers: vaxis.ModAlt}, false, false, "multi")
+	}
+	// 6. random keys: any key code (negative, beyond Unicode), any modifier mask, unrelated text
+	n = 300
+	if thorough {
+		n = 20000
+	}
+	for i := 0; i < n; i++ {
+		var c rune
+		switch h.pick(6) {
+		case 0:
+			c = rune(h.pick(128))
+		case 1:
+			c = rune(h.pick(0x3000))
+		case 2:
+			c = rune(h.pick(0x110000))
+		case 3:
+			c = vaxis.KeyUp + rune(h.pick(260)) - 5
+		case 4:
+			c = -rune(h.pick(1 << 20))
+		default:
+			c = rune(h.cfg.Rand.Int31())
+		}
+		if c >= 0xd800 && c < 0xe000 {
+			c = 'q'
+		}
+		k := vaxis.Key{Keycode: c, Modifiers: vaxis.ModifierMask(h.pick(256))}
+		if h.pick(20) == 0 {
+			k.Modifiers = vaxis.ModifierMask(h.cfg.Rand.Int63()) - (1 << 62)
+		}
+		if h.pick(3) == 0 {
+			k.ShiftedCode = rune(33 + h.pick(0x400))
+		}
+		if h.pick(2) == 0 {
+			t := rune(33 + h.pick(0x500))
+			k.Text = string(t)
+			if h.pick(4) == 0 {
+				k.Text += string(rune(33 + h.pick(90)))
+			}
+		}
+		h.addKey(k, h.pick(2) == 0, h.pick(2) == 0, "random")
+	}
+}
+
+var buttons = []vaxis.MouseButton{vaxis.MouseLeftButton, vaxis.MouseMiddleButton, vaxis.MouseRightButton, vaxis.MouseNoButton,
+	vaxis.MouseWheelUp, vaxis.MouseWheelDown, vaxis.MouseButton8, vaxis.MouseButton9, vaxis.MouseButton10, vaxis.MouseButton11}
+
+func (h *harness) pos() (int, int) {
+	switch h.pick(8) {
+	case 0:
+		return 0, 0
+	case 1:
+		return 79, 23
+	case 2:
+		return 222, 94 // beyond the reach of the legacy encoding
+	case 3:
+		return h.pick(100000), h.pick(100000)
+	case 4:
+		return int(h.cfg.Rand.Int63()), int(h.cfg.Rand.Int63())
+	default:
+		return h.pick(200), h.pick(60)
+	}
+}
+
+func (h *harness) genMouse() {
+	thorough := h.cfg.Thorough()
+	types := []vaxis.EventType{vaxis.EventPress, vaxis.EventRelease, vaxis.EventMotion}
+	reps := 1
+	if thorough {
+		reps = 12
+	}
+	// every combination of the six modes x every button x press/release/motion
+	for mask := 0; mask < 64; mask++ {
+		b := func(i uint) bool { return mask&(1<<i) != 0 }
+		for _, btn := range buttons {
+			for _, ty := range types {
+				for r := 0; r < reps; r++ {
+					col, row := h.pos()
+					mods := vaxis.ModifierMask(0)
+					if h.pick(4) == 0 {
+						mods = vaxis.ModifierMask(h.pick(8))
+					}
+					ops := h.mouseOps(b(0), b(1), b(2), b(3), b(4), b(5))
+					h.addEvent(ops, vaxis.Mouse{Button: btn, Col: col, Row: row, EventType: ty, Modifiers: mods}, "grid")
+				}
+			}
+		}
+	}
+	// random buttons, event types and positions (negative ones too)
+	n := 300
+	if thorough {
+		n = 20000
+	}
+	for i := 0; i < n; i++ {
+		mask := h.pick(64)
+		b := func(i uint) bool { return mask&(1<<i) != 0 }
+		col, row := h.pos()
+		if h.pick(10) == 0 {
+			col = -h.pick(50)
+		}
+		if h.pick(10) == 0 {
+			row = -1 - h.pick(3)
+		}
+		if h.pick(40) == 0 {
+			col = int(^uint(0) >> 1)
+		}
+		btn := vaxis.MouseButton(h.pick(300))
+		if h.pick(3) == 0 {
+			btn = buttons[h.pick(len(buttons))]
+		}
+		ty := vaxis.EventType(h.pick(5))
+		h.addEvent(h.mouseOps(b(0), b(1), b(2), b(3), b(4), b(5)),
+			vaxis.Mouse{Button: btn, Col: col, Row: row, EventType: ty, Modifiers: vaxis.ModifierMask(h.pick(8))}, "random")
+	}
+	// paste boundaries with and without mode 2004, other events
+	for i := 0; i < 8; i++ {
+		var ops []term.VerifC13ModeOp
+		switch i % 4 {
+		case 1:
+			ops = []term.VerifC13ModeOp{{Kind: 'h', N: 2004}}
+		case 2:
+			ops = []term.VerifC13ModeOp{{Kind: 'h', N: 2004}, {Kind: 'l', N: 2004}}
+		case 3:
+			ops = []term.VerifC13ModeOp{{Kind: 'h', N: 1006}, {Kind: 'h', N: 2004}, {Kind: 'h', N: 1000}}
+		}
+		h.addEvent(ops, vaxis.PasteStartEvent{}, "paste")
+		h.addEvent(ops, vaxis.PasteEndEvent{}, "paste")
+	}
+	h.addEvent(nil, vaxis.FocusIn{}, "other")
+	h.addEvent([]term.VerifC13ModeOp{{Kind: 'h', N: 1000}}, vaxis.Resize{}, "other")
 }
 
 func main() {
-	fmt.Printf("shift+tab: %q\n", term.VerifC13EncodeXterm(vaxis.Key{Keycode: vaxis.KeyTab, Modifiers: vaxis.ModShift}, false, false))
-	fmt.Printf("1006 only, press: %q\n", run([]term.VerifC13ModeOp{{'h', 1006}}, vaxis.Mouse{Button: vaxis.MouseLeftButton, Col: 3, Row: 4, EventType: vaxis.EventPress}))
-	fmt.Printf("1003+1006, drag: %q\n", run([]term.VerifC13ModeOp{{'h', 1003}, {'h', 1006}}, vaxis.Mouse{Button: vaxis.MouseLeftButton, Col: 3, Row: 4, EventType: vaxis.EventMotion}))
-	fmt.Printf("1003+1006, motion: %q\n", run([]term.VerifC13ModeOp{{'h', 1003}, {'h', 1006}}, vaxis.Mouse{Button: vaxis.MouseNoButton, Col: 3, Row: 4, EventType: vaxis.EventMotion}))
-	fmt.Printf("1002+1006, drag: %q\n", run([]term.VerifC13ModeOp{{'h', 1002}, {'h', 1006}}, vaxis.Mouse{Button: vaxis.MouseLeftButton, Col: 3, Row: 4, EventType: vaxis.EventMotion}))
-	fmt.Printf("1000+1006, ctrl press: %q\n", run([]term.VerifC13ModeOp{{'h', 1000}, {'h', 1006}}, vaxis.Mouse{Button: vaxis.MouseLeftButton, Col: 3, Row: 4, EventType: vaxis.EventPress, Modifiers: vaxis.ModCtrl}))
-	fmt.Printf("1049 wheel: %q\n", run([]term.VerifC13ModeOp{{'h', 1049}}, vaxis.Mouse{Button: vaxis.MouseWheelUp, EventType: vaxis.EventPress}))
-	fmt.Printf("paste off: %q on: %q\n", run(nil, vaxis.PasteStartEvent{}), run([]term.VerifC13ModeOp{{'h', 2004}}, vaxis.PasteEndEvent{}))
-	fmt.Printf("ctrl+space: %q\n", term.VerifC13EncodeXterm(vaxis.Key{Keycode: ' ', Modifiers: vaxis.ModCtrl}, false, false))
+	cfg := hx.ParseFlags()
+	h := &harness{cfg: cfg, host: newHost()}
+	h.keys = hx.NewStream("key", "gen.GenKeys model.Keys model.TermMouse model.TermKeys", "key_case", "c13_key_mismatches", "c13_key_violations")
+	h.mice = hx.NewStream("mouse", "gen.GenKeys model.Keys model.TermMouse model.TermKeys", "mouse_case", "c13_mouse_mismatches", "c13_mouse_violations")
+	h.keys.ShardMax = 250
+	h.mice.ShardMax = 250
+	h.genKeys()
+	h.genMouse()
+	ok := hx.WithTimeout(5*time.Second, h.host.vx.Close)
+	extra := map[string]interface{}{"host_reads": h.host.reads, "host_reads_after_pause": h.host.pauses, "host_closed": ok}
+	cfg.Write("C13", "key stream: every key of xtermKeymap x 8 modifier sets x DECCKM x DECKPAM exhaustively, every named key, printable ASCII x 8 modifier sets exhaustively, "+
+		"Tab/Enter/Esc/Backspace x 8, sampled scripts, multi-code-point texts, random key codes/masks/texts; each is written by Model.Update into a pipe "+
+		"(modes set through the emulator's DECSET/DECRST/ESC = dispatch) and the bytes are read back by a real Vaxis on a fake console. "+
+		"mouse stream: 64 mode combinations x 10 buttons x press/release/motion, random buttons/types/positions, paste boundaries with and without 2004; "+
+		"read back by the real Vaxis unless the bytes are a legacy X10 report. non-trivial = key: Shift/Alt/Ctrl held, a special key or a non-default mode; "+
+		"mouse: something was written; distinct by the whole case",
+		[]*hx.Stream{h.keys, h.mice}, extra, h.host.direct)
 }
